@@ -15,6 +15,7 @@ import QbeeModel.Model.Asm
 import QbeeModel.Model.DebugMap
 import QbeeModel.Model.Tick
 import QbeeModel.Model.Dbg
+import QbeeModel.Model.DbgEval
 /-
   Line-protocol driver for the executable models.  One request per line, one
   answer per line.  Unknown or malformed requests answer `bad-op`; the models
@@ -597,6 +598,33 @@ def handleDbg : List String → Option String
       | _ => none
   | _ => none
 
+
+/-! ### the debugger's evaluator on integral trees (C13): `dbgeval <tree>`, tree = L <t> <n> | U <op> tree | B <op> tree tree -/
+
+partial def parseCEL : List String → Option (ExprSem.CE Float × List String)
+  | "L" :: t :: n :: r => do
+      let n ← n.toInt?
+      let ty ← (if t = "i" then some Gen.Ty.i else if t = "l" then some Gen.Ty.l else none)
+      pure (.leaf (.int ty n), r)
+  | "U" :: op :: r => do
+      let op ← op.toNat?
+      let (a, r1) ← parseCEL r
+      pure (.un op a, r1)
+  | "B" :: op :: r => do
+      let op ← op.toNat?
+      let (a, r1) ← parseCEL r
+      let (b, r2) ← parseCEL r1
+      pure (.bin op a b, r2)
+  | _ => none
+
+def handleDbgEval (r : List String) : Option String := do
+  let (e, rest) ← parseCEL r
+  if !rest.isEmpty then none
+  pure (match DbgEval.dbgEval e with
+    | .val t n => s!"val {if t = .i then "i" else "l"} {n}"
+    | .err => "err"
+    | .unsupported => "unsupported")
+
 def handle (toks : List String) : String :=
   match toks with
   | "print" :: r =>
@@ -690,6 +718,7 @@ def handle (toks : List String) : String :=
   | "dbgmap" :: r => (handleDbgMap r).getD "bad-op"
   | "tick" :: r => (handleTick r).getD "bad-op"
   | "dbg" :: r => (handleDbg r).getD "bad-op"
+  | "dbgeval" :: r => (handleDbgEval r).getD "bad-op"
   | ["uscan", f] =>
     match decStr f with
     | some f => match Using.scanFmt f with
